@@ -368,6 +368,8 @@ def check_C04(report: common.Report):
     report.set('rule', 'schedule = list of (actor, steps) segments over shared-state I/O calls; forms A/B exhaustive in (i, j) for '
                        'each (packer variant, reader/writer kind), form C and 3-actor schedules sampled; distinct = distinct '
                        'logical trace (acks, read starts/results, failures, final state)')
+    from . import concconf  # pylint: disable=import-outside-toplevel
+    concconf.check(report)  # step-level conformance of scheduled executions to Dos.tla (drift only)
     report.sample({'schedule': traces[0]['segments'], 'packer': traces[0]['packer'], 'x': traces[0]['x'],
                    'logical': [{k: v for k, v in ln.items() if k != 'obs'} for ln in traces[0]['lines']]})
 
